@@ -68,6 +68,30 @@ def javac_units(literals, workdir):
     return res
 
 
+def source_literals(strs):
+    """the literal DvMethod.get_source() prints for `return <const-string>` of each string (None when the method text has no return)"""
+    from androguard.core import dex
+    from androguard.core.analysis.analysis import Analysis
+    from androguard.decompiler import decompile
+    from ..dexgen import Dex
+    out = []
+    for k0 in range(0, len(strs), 200):
+        batch = strs[k0:k0 + 200]
+        ms = [dict(name="m%04d" % i, ret="Ljava/lang/String;", params=[], flags=9, code=dict(regs=1, ins=0, outs=0, insns=[("const-string", 0, s), ("return-object", 0)]))
+              for i, s in enumerate(batch)]
+        c = dict(name="Lt/S;", super="Ljava/lang/Object;", flags=1, sfields=[], ifields=[], dmethods=ms, vmethods=[])
+        d = dex.DEX(Dex([c]).build())
+        dx = Analysis(d)
+        by_name = {m.get_method().get_name(): m for m in dx.get_methods() if not m.is_external()}
+        for i in range(len(batch)):
+            z = decompile.DvMethod(by_name["m%04d" % i])
+            z.process()
+            src = z.get_source()
+            a, b = src.find("return "), src.rfind(";")
+            out.append(src[a + 7:b] if 0 <= a < b else None)
+    return out
+
+
 def run(chk):
     from androguard.decompiler import writer
     quick = chk.tier == "quick"
@@ -105,6 +129,17 @@ def run(chk):
                 us.append(rnd.randrange(0, 0x10000))
         lit = writer.string(from_units(us))
         recs.append(dict(kind="string", units=units(from_units(us)), lit=[ord(c) for c in lit]))
+    # the same through the decompiler (const-string; return-object -> DvMethod.get_source): strings that look like other Java tokens, the
+    # escapes, a sample of the enumerated and of the random strings
+    special = ["true", "false", "null", "", "0", "1", "this", "true ", "True", "0x10", "1L", "1.0f", "'a'", "\"", "\\", "\n", "\r", "\t", "\u0000", "\uffff", "\ud800", "\udc00x",
+               "\U0001F600", "a\"b\\c", "//", "/*", "*/", ";", "}", "\\u0041", "int", "void", "new", "return x;"]
+    sample = [from_units(r_["units"]) for r_ in recs[:n_s2c:max(1, n_s2c // 150)]] + [from_units(r_["units"]) for r_ in recs[-200:]]
+    via_source = special + sample
+    n_src = 0
+    for s, lit in zip(via_source, source_literals(via_source)):
+        recs.append(dict(kind="string", units=units(s), lit=[ord(c) for c in (lit if lit is not None else "<no return statement>")], via="get_source"))
+        n_src += 1
+    chk.extra["literals_read_from_decompiled_source"] = n_src
     # bind the lexer spec to javac: androguard's own outputs for a sample + hand-made escape torture literals
     n_javac = 150 if quick else 2000
     lits = []
